@@ -16,9 +16,12 @@ def run(c, a):
         if rec["event"]["api"].startswith("fn:"):
             return replay_std(c, rec)
         return replay_ops(c, rec)
-    ev = run_ops(c, "mark", ALL_OPS)
-    c.sample_events(ev, 1, lambda l: '"m1"' in l and '"m2"' in l)
-    c.trace("OpsTrace", ev)
+    import os
+    only = os.environ.get("VERIF_C04_ONLY")      # debugging aid: "ctor" = conversions / constructors / mark API / predicates alone
+    if only != "ctor":
+        ev = run_ops(c, "mark", ALL_OPS)
+        c.sample_events(ev, 1, lambda l: '"m1"' in l and '"m2"' in l)
+        c.trace("OpsTrace", ev)
     jobs, outs = [], []
     for fam in ("convert", "ctor"):
         out = c.path("vec-mark-%s.ndjson" % fam)
@@ -30,6 +33,8 @@ def run(c, a):
     ev2 = c.concat([p[1] for p in pairs], c.path("events-mark2.ndjson"))
     c.sample_events(ev2, 1, lambda l: '"SetVal"' in l and '"m2"' in l)
     c.trace("OpsTrace", ev2)
+    if only == "ctor":
+        return
     ev3 = run_std(c, "mark")
     c.sample_events(ev3, 1, lambda l: '"am":[false' in l and '"m1"' in l)
     c.trace("StdlibTrace", ev3)
